@@ -53,7 +53,7 @@ Definition the_type_table : list (string * (N * flist)) :=
       | _, _ => []
       end) all_type_names.
 
-Definition inst_T (ty : string) : option (N * flist) := assoc ty the_type_table.
+Definition inst_T : tyenv := fun ty => tassoc ty the_type_table.
 
 Definition inst_enc_top (v : val) : option bytes := enc_top inst_T v.
 
